@@ -133,7 +133,112 @@ def check_transparency(run, rule):
     run.info["read_path_functions"] = n
 
 
+def check_input_owner(run, rule):
+    """Everything that takes bytes from the input stream sits in read_to_buffer (and the constructor that binds the stream):
+    that is where the end of the input is detected.  A read, ignore, get or seek anywhere else consumes input without that
+    test - a skip past the end of a truncated file goes unnoticed."""
+    facts = run.facts
+    n = 0
+    for f in decoder.dec_fns(facts):
+        nm = f["qn"].split("::")[-1]
+        for c in ir.calls_in(f["body"]):
+            if c.get("k") == "MCall" and path(c.get("recv")) == ("this", "m_input"):
+                n += 1
+                ok = bool(nm == "read_to_buffer" or f.get("ctor"))
+                run.ob(rule, "%s:m_input.%s" % (nm, callee_name(c)), ok, f, c.get("l", 0),
+                       "the input stream is touched by the refill only" if ok else
+                       "%s() calls m_input.%s() itself: bytes leave the stream without the refill's end-of-input test, so input that ends "
+                       "inside what is consumed here is not reported" % (nm, callee_name(c)), nontrivial=not ok)
+    run.floor(rule, 3, "uses of the input stream")
+
+
+WINDOW_CORE = ("m_p", "m_end", "m_buffer", "m_input")
+GUARDED_BY = {}
+
+
+def window_derived_members(fns):
+    """{member: (function, node)}: members other than the window itself that are assigned a position in the window or a value
+    read through it (`m_x = m_p`, `m_y = m_p[0] & ..`)."""
+    out = {}
+    for f in fns:
+        for n in ir.walk(f["body"]):
+            if n.get("k") == "Bin" and n.get("op") == "=":
+                lp = path(n.get("lhs"))
+                if not (lp and len(lp) == 2 and lp[0] == "this" and lp[1] not in WINDOW_CORE):
+                    continue
+                if any(path(x) in (("this", "m_p"), ("this", "m_end")) for x in ir.walk(n.get("rhs")) if x.get("k") == "Member"):
+                    out.setdefault(lp[1], (f, n))
+    # members assigned together with a window-derived one under a test of it (the cached answer of a position memo)
+    changed = True
+    while changed:
+        changed = False
+        for f in fns:
+            for i_ in ir.walk(f["body"]):
+                if i_.get("k") != "If":
+                    continue
+                if not any(path(x) and len(path(x)) == 2 and path(x)[0] == "this" and path(x)[1] in out for x in ir.walk(i_.get("cond")) if x.get("k") == "Member"):
+                    continue
+                keys_ = [path(x)[1] for x in ir.walk(i_.get("cond")) if x.get("k") == "Member" and path(x) and len(path(x)) == 2 and path(x)[1] in out]
+                for n in ir.walk(i_.get("then")):
+                    if n.get("k") == "Bin" and n.get("op") == "=":
+                        lp = path(n.get("lhs"))
+                        if lp and len(lp) == 2 and lp[0] == "this" and lp[1] not in WINDOW_CORE and lp[1] not in out:
+                            out[lp[1]] = (f, n)
+                            GUARDED_BY[lp[1]] = keys_[0]      # only consulted when its key still matches
+                            changed = True
+    # a member whose every store sits under a test of another window-derived member is only consulted while that key matches
+    for m in list(out):
+        keys = None
+        for f in fns:
+            for n, parents in ir.walk_with_parents(f["body"]):
+                if n.get("k") == "Bin" and n.get("op") == "=" and path(n.get("lhs")) == ("this", m):
+                    ks = set()
+                    for p_ in parents:
+                        if p_.get("k") == "If" and any(x is n for x in ir.walk(p_.get("then"))):
+                            ks |= set(path(x)[1] for x in ir.walk(p_.get("cond")) if x.get("k") == "Member" and path(x) and len(path(x)) == 2 and
+                                      path(x)[0] == "this" and path(x)[1] in out and path(x)[1] != m)
+                    keys = ks if keys is None else (keys & ks)
+        if keys:
+            GUARDED_BY[m] = sorted(keys)[0]
+    return out
+
+
+def refill_resets(refill_fn):
+    """members assigned in the block of the refill function that re-seats the cursor (`m_p = m_buffer`)"""
+    for b in ir.walk(refill_fn["body"]):
+        if b.get("k") == "Block" and any(isinstance(st, dict) and any(x.get("k") == "Bin" and x.get("op") == "=" and path(x.get("lhs")) == ("this", "m_p")
+                                                                        for x in ir.walk(st)) for st in b.get("s", [])):
+            return set(path(x["lhs"])[1] for st in b["s"] for x in ir.walk(st)
+                       if x.get("k") == "Bin" and x.get("op") == "=" and path(x.get("lhs")) and len(path(x["lhs"])) == 2 and path(x["lhs"])[0] == "this")
+    return set()
+
+
+def check_window_state(run, rule):
+    """Whatever a decoder member remembers about the window (a position in it, a value read through it) is void once the window
+    is refilled: the same pointer value then stands for bytes 65535 further on."""
+    facts = run.facts
+    ctl = [g for q, g in facts.controls.items() if q.startswith("verif_rc::r05_5_decoder::")]
+    cref = [g for g in ctl if g["qn"].endswith("::read_to_buffer")]
+    if not cref or not (set(window_derived_members(ctl)) - refill_resets(cref[0])):
+        raise AnalysisBroken(rule, "the window-derived-state detector is silent on its control (tu/rule_controls.cpp)")
+    fns = decoder.dec_fns(facts)
+    refill = facts.fn("CDNS::CdnsDecoder::read_to_buffer", rule=rule)
+    derived = window_derived_members(fns)
+    resets = refill_resets(refill)
+    for m, (f, n) in sorted(derived.items()):
+        ok = m in resets or GUARDED_BY.get(m) in resets
+        run.ob(rule, "CdnsDecoder.%s:dies-with-the-window" % m, ok, f, n.get("l", 0),
+               "%s is re-initialised when the buffer is refilled" % m if ok else
+               "%s() stores a window position (or what it found there) in %s, and read_to_buffer() leaves %s alone when it refills the buffer: after a "
+               "refill the same pointer value denotes other bytes, so the remembered answer is returned for the wrong item" % (f["qn"].split("::")[-1], m, m))
+    if not derived:
+        run.ob(rule, "CdnsDecoder:no-window-derived-state", True, refill, refill["line"], "no decoder member caches a window position or content", nontrivial=False)
+    run.floor(rule, 1, "window-derived members")
+
+
 def check(run):
+    check_window_state(run, "R05.5")
+    check_input_owner(run, "R05.4")
     check_refill(run, "R05.1")
     check_typestate(run, "R05.2")
     check_transparency(run, "R05.3")
